@@ -22,6 +22,7 @@ import (
 	"net"
 	"strings"
 
+	apicommon "github.com/enfein/mieru/v3/apis/common"
 	"github.com/enfein/mieru/v3/apis/constant"
 	"github.com/enfein/mieru/v3/apis/model"
 	"github.com/enfein/mieru/v3/pkg/appctl/appctlpb"
@@ -183,6 +184,29 @@ func (s *Server) rejectPrivateAndLoopbackIPAction(_ context.Context, in egress.I
 	}
 	return egress.Action{
 		Action: appctlpb.EgressAction_REJECT,
+	}
+}
+
+// udpDestinationFilter returns a filter that applies the loopback and private
+// IP policy of the user that owns the proxy connection to the destination of
+// every relayed UDP packet.
+func (s *Server) udpDestinationFilter(proxyConn net.Conn) udpDestinationFilter {
+	in := egress.Input{Protocol: appctlpb.ProxyProtocol_SOCKS5_PROXY_PROTOCOL}
+	if userCtx, ok := proxyConn.(apicommon.UserContext); ok && userCtx.UserName() != "" {
+		in.Env = map[string]string{"user": userCtx.UserName()}
+	}
+	return func(dst *net.UDPAddr) bool {
+		ip := dst.IP
+		if ip.IsUnspecified() {
+			// Sending to 0.0.0.0 or :: reaches the local host.
+			ip = net.ParseIP("127.0.0.1")
+		}
+		req := &model.Request{
+			Command: constant.Socks5UDPAssociateCmd,
+			DstAddr: model.AddrSpec{IP: ip, Port: dst.Port},
+		}
+		action := s.rejectPrivateAndLoopbackIPAction(context.Background(), in, req)
+		return action.Action != appctlpb.EgressAction_REJECT
 	}
 }
 
